@@ -477,6 +477,16 @@ impl Vm {
       },
     });
 
+    if self.builtin.primitives.is_primitive(super_class) {
+      return self.runtime_error_from_str(
+        self.builtin.errors.runtime,
+        &format!(
+          "Cannot inherit from primitive class {}.",
+          super_class.name()
+        ),
+      );
+    }
+
     let hooks = GcHooks::new(self);
     let mut sub_class = self.fiber.peek(0).to_obj().to_class();
 
